@@ -83,6 +83,15 @@ fn phases(seed: u64, tier: Tier) -> Vec<Sub> {
         accs: prop_par("grammar-long", seed, tier.pick(500, 15_000), || render(gen::stream(StreamCfg { max_items: 400, ..StreamCfg::ALL })), body, tojson),
     });
     out.push(Sub {
+        name: "grammar-huge",
+        exhaustive: false,
+        bound: "G-STREAM (0..8 items) with one printable run of 64..200 KiB (16-bit length boundaries)".into(),
+        accs: vcore::drive::huge_par("grammar-huge", seed, tier.pick(64, 3_000), StreamCfg::ALL, || Just(()), |b, _, _| match one(&b.to_vec()) {
+            Ok(_) => Verdict::ok(Some(digest(b))),
+            Err(m) => Verdict { result: Err(m), nontrivial: None },
+        }, |_| Value::Null),
+    });
+    out.push(Sub {
         name: "style-words",
         exhaustive: false,
         bound: "git / LS_COLORS words, near misses, separators".into(),
